@@ -38,6 +38,11 @@ def check(run):
         N.check_isnone(run, F)
         N.check_defaults(run, F)
         N.check_casts(run, F, skip_time=True)
+        # order statistics see nulls last in both directions: only the null-last comparators
+        import C12
+        run.rule('ORD.cmp', 'every comparator handed to sort / select_nth in the order-statistic '
+                 'kernels is the null-last comparator, the descending one exactly on the reverse arms')
+        C12.comparators(run, F)
         # nulls never enter a rolling accumulator; two-series kernels delete pairwise
         for k in find_kernels(F):
             if not k.custom:
